@@ -1123,3 +1123,11 @@ package types
 //@ func (aa Address) Empty() (r bool)
 //@   props C17 C03
 //@   ensures r == (len(aa) == 0)
+
+// C20 (malformed input is refused): without a custom verifier an address is accepted exactly when it is 20 bytes long -
+// longer ones are refused too (the fixed-width store keys would silently truncate them: seed C20g)
+//@ func VerifyAddressFormat(bz []byte) (err error)
+//@   props C20
+//@   may_panic
+//@   modifies everything
+//@   ensures [length] sdkConfig != nil && sdkConfig.addressVerifier == nil ==> ((err == nil) == (len(bz) == 20))
